@@ -160,6 +160,34 @@ for _tag, _src, _def, _fn in (("base", PDS_BASE, {}, "ompl::base::PlannerDataSto
                           bound="graphs of <= 3 vertices and <= 3 edges (distinct endpoint pairs), all tags / marks / weights / contents", backend="cadical", timeout=900,
                           functions=[_fn + "::" + f for f in ("store(pd, ostream)", "load(istream, pd)", "storeVertices", "loadVertices", "storeEdges", "loadEdges")], canaries=_can))
 
+# ---------------------------------------------------------------- ScopedState reals() / operator=(vector<double>) and PlannerData::extractStateStorage
+SSH = "src/ompl/base/ScopedState.h"
+SR_RULES = [(r"std::vector<double> r;", "Vec r; r.n = 0;", 0), (r"r\.push_back\(([^;]+)\);", r"VEC_PUSH(&r, \1);", 0),
+            (r"\A\{", "{ double *va;", 0), (r"while \(double \*va = ([^;{]+?index\+\+\))\)", r"while ((va = \1))", 0), (r"if \(double \*va = ([^;{]+?, i\))\)", r"if ((va = \1))", 0),
+            (r"reals\.size\(\)", "reals_p->n", 0), (r"reals\[i\]", "reals_p->d[i]", 0), (r"return \*this;", "return;", 0),
+            (r"space_->copyToReals\(r, state_\)", "space_->copyToReals(&r, state_)", 0), (r"space_->copyFromReals\(state_, reals\)", "space_->copyFromReals(state_, reals_p)", 0)]
+UNITS.append(dict(name="c09_scopedstate_reals", template="C09/scoped_reals.c", mode="plain", entry="h_scoped_reals", flags=D.PFLAGS, unwind=7, level="bounded", bound="states of <= 4 doubles", backend="minisat", timeout=300,
+                  functions=["ScopedState::reals", "ScopedState::operator=(const std::vector<double>&)"],
+                  sources=[dict(name="reals", file=SSH, sig=r"std::vector<double> reals\(\) const", rules=SR_RULES, loops={"allow_uncontracted": True}),
+                           dict(name="assign_reals", file=SSH, sig=r"ScopedState<T> &operator=\(const std::vector<double> &reals\)", rules=SR_RULES, loops={"allow_uncontracted": True})],
+                  canaries=[dict(name="through_the_value_location_table", where="body:reals", rx=r"unsigned int index = 0;.*?VEC_PUSH\(&r, \*va\);", repl="space_->copyToReals(&r, state_);")]))
+def _split_second_loop(text):
+    i = text.find("for (const auto &it : indexMap)")
+    return text if i < 0 else text[:i] + text[i:].replace("it.", "jt.").replace("&it :", "&jt :")
+XS_RULES = [(_split_second_loop, None, 0),
+            (r"auto store\(std::make_shared<GraphStateStorage>\(si_->getStateSpace\(\)\)\);", "STORE_INIT();", 0), (r"if \(graph_\)", "if (HAS_GRAPH)", 0),
+            (r"std::map<unsigned int, unsigned int> indexMap;", "unsigned indexMap[NV];", 0),
+            (r"for \(const auto &it : stateIndexMap_\)\s*\{", "for (unsigned o_ = 0; o_ < nv; ++o_) { unsigned it_second = ORDER[o_];", 0), (r"it\.second", "it_second", 0), (r"it\.first", "STATE_OF[it_second]", 0),
+            (r"store->size\(\)", "store_size", 0), (r"store->addState\(", "STORE_ADD(", 0),
+            (r"for \(const auto &jt : indexMap\)\s*\{", "for (unsigned v_ = 0; v_ < nv; ++v_) { unsigned jt_first = v_, jt_second = indexMap[v_];", 0), (r"jt\.first", "jt_first", 0), (r"jt\.second", "jt_second", 0),
+            (r"std::vector<unsigned int> edgeList;", "unsigned edgeList[NV]; unsigned edgeList_n = 0;", 0), (r"getEdges\(jt_first, edgeList\);", "edgeList_n = GET_EDGES(jt_first, edgeList);", 0),
+            (r"GraphStateStorage::MetadataType &md = store->getMetadata\(jt_second\);", "unsigned *md = MD[jt_second]; unsigned *md_n = &MD_n[jt_second];", 0), (r"md\.resize\(edgeList\.size\(\)\);", "*md_n = edgeList_n;", 0),
+            (r"edgeList\.size\(\)", "edgeList_n", 0), (r"std::size_t", "size_t", 0), (r"return store;", "return;", 0)]
+UNITS.append(dict(name="c09_plannerdata_extractStateStorage", template="C09/extract_storage.c", mode="plain", entry="h_extractStateStorage", flags=D.PFLAGS, unwind=6, level="bounded", bound="graphs of <= 3 vertices, every address order",
+                  backend="minisat", timeout=300, functions=["PlannerData::extractStateStorage"],
+                  sources=[dict(name="extractStateStorage", file=PDC, sig=r"ompl::base::StateStoragePtr ompl::base::PlannerData::extractStateStorage\(\) const", rules=XS_RULES, loops={"allow_uncontracted": True})],
+                  canaries=[dict(name="raw_vertex_indices_in_metadata", where="body:extractStateStorage", rx=r"md\[k\] = indexMap\[edgeList\[k\]\];", repl="md[k] = edgeList[k];")]))
+
 UNITS.append(D.wrapper_unit("c09_wrapper_forwarders"))
 ASSUMPTIONS = ["compound: component (de)serializers are addressed by index and touch exactly len_i bytes at the address they are given (leaf contract); <= 64 components, each <= 4096 bytes",
                "std::sort / std::binary_search / std::map::find are modelled by an insertion sort, a real binary search and the identity map (trusted helpers)",
